@@ -199,14 +199,27 @@ func RunCheck(o CheckOpts) int {
 	var violations []string
 	var samples []interface{}
 	var oblList []*OblResult
+	var deadPaths []string
+	deadByFunc, liveReturns, returnsByFunc := map[string]int{}, map[string]int{}, map[string]int{}
 	for _, r := range results {
 		solverMs += r.Ms
 		oblList = append(oblList, r)
 		if r.Kind == "cover" {
 			nCover++
 			if !r.ok {
-				fmt.Printf("govc: VACUOUS %s (preconditions or path unsatisfiable)\n", r.ID)
-				return broken(o, "vacuous contract: "+r.ID)
+				if r.obl.Name == "cover.requires" {
+					fmt.Printf("govc: VACUOUS %s (preconditions unsatisfiable)\n", r.ID)
+					return broken(o, "vacuous contract: "+r.ID)
+				}
+				// an unreachable return or loop body (defensive code that the assumptions rule out): reported, and fatal
+				// only if no return of the function is reachable
+				deadPaths = append(deadPaths, r.ID)
+				deadByFunc[r.Function]++
+			} else if strings.HasPrefix(r.obl.Name, "cover.return") {
+				liveReturns[r.Function]++
+			}
+			if strings.HasPrefix(r.obl.Name, "cover.return") {
+				returnsByFunc[r.Function]++
 			}
 			continue
 		}
@@ -242,6 +255,12 @@ func RunCheck(o CheckOpts) int {
 			}
 		}
 	}
+	for f, n := range returnsByFunc {
+		if n > 0 && liveReturns[f] == 0 {
+			fmt.Printf("govc: VACUOUS %s: no return is reachable under the contract's assumptions\n", f)
+			return broken(o, "vacuous contract: "+f)
+		}
+	}
 	if o.Verbose {
 		for _, r := range results {
 			fmt.Printf("  %-9s %6dms %-10s %s\n", r.Status, r.Ms, r.Backend, r.ID)
@@ -273,6 +292,7 @@ func RunCheck(o CheckOpts) int {
 			"trusted_base":             []string{"govc VC generator (/verif/govc)", "go/ssa + go/types (x/tools v0.41.0)", "z3 5.1.0 / z3 4.8.12 / cvc5 1.0.3 (first definitive answer)", "trusted library contracts and exact library models listed under assumptions"},
 			"functions_under_contract": funcsUnder,
 			"vacuity_covers_checked":   nCover,
+			"unreachable_under_assumptions": deadPaths,
 			"solver_time_s":            float64(solverMs) / 1000,
 			"obligation_list":          oblList,
 			"samples":                  samples,
